@@ -21,6 +21,11 @@ fn cells_json(c: &[bool; 5]) -> String {
 }
 
 pub fn run(out: &mut Out, seed: u64) {
+    run_n(out, seed, 1)
+}
+
+/// `rounds` > 1: every thread repeats its five calls (allocation under contention, C18)
+pub fn run_n(out: &mut Out, seed: u64, rounds: usize) {
     const THREADS: usize = 8;
     out.emit(Ev::new("dreset").meas(0, ""));
     let barrier = Arc::new(Barrier::new(THREADS));
@@ -38,6 +43,7 @@ pub fn run(out: &mut Out, seed: u64) {
                 let j = rng.below(i as u64 + 1) as usize;
                 order.swap(i, j);
             }
+            let order: Vec<usize> = (0..rounds).flat_map(|_| order.clone()).collect();
             for k in order {
                 match k {
                     0 | 1 => {
